@@ -70,9 +70,12 @@ func normalizeProgram(p0 *Program) (*Program, []string) {
 	for k, v := range p0.overlay {
 		overlay[k] = v
 	}
-	for round := 0; round < 8; round++ {
+	for round := 0; round < 10; round++ {
 		nz.p = cur
 		edits := nz.collect()
+		if len(edits) == 0 && !noSRA {
+			edits = nz.collectMethodValues()
+		}
 		if len(edits) == 0 && !noSRA {
 			edits = nz.collectSRA()
 		}
